@@ -88,6 +88,15 @@ pub fn run_shard(prop: &Prop, tier: Tier, shard: usize, n: usize, out: &PathBuf,
     super::panics::install_quiet_hook();
     *crate::setting::ENABLE_PRINT_OPCODE.write().unwrap() = false;
     let deadline = Instant::now() + wall_cap(tier);
+    // watchdog: a shard that is stuck (e.g. in a blocking read of an E6 unit) ends as a machinery error
+    {
+        let cap = wall_cap(tier) + Duration::from_secs(120);
+        std::thread::spawn(move || {
+            std::thread::sleep(cap);
+            eprintln!("shard watchdog: wall cap exceeded, giving up");
+            std::process::exit(3);
+        });
+    }
     let mut ctx = Ctx::new();
     ctx.known_keys = known.iter().filter(|k| k.is_known).map(|k| k.key.clone()).collect();
     ctx.known_keys.sort();
